@@ -16,7 +16,7 @@ import enum
 
 import z3
 
-from .values import (SV, SymObj, SymMap, SymSeq, Unsupported, as_real, as_int, kind_of, truth,
+from .values import (SV, SymObj, SymMap, SymSeq, NativeModel, Leaf, Unsupported, as_real, as_int, kind_of, truth,
                      real_val, key_eq, is_symbolic, name_const, NameSort)
 
 
@@ -305,7 +305,7 @@ class Interp:
     MAX_DEPTH = 40
     MAX_UNROLL = 64
 
-    def __init__(self, path, models, inline_ok=None, loop_specs=None, pow_fn=None, interpret_always=()):
+    def __init__(self, path, models, inline_ok=None, loop_specs=None, pow_fn=None, interpret_always=(), total_arith=False):
         self.path = path
         self.models = models
         self.depth = 0
@@ -313,6 +313,7 @@ class Interp:
         self.loop_specs = loop_specs or {}
         self.pow_fn = pow_fn
         self.interpret_always = set(interpret_always)
+        self.total_arith = total_arith
         self.dropped = set()
         self.steps = 0
 
@@ -340,6 +341,8 @@ class Interp:
         m = self.models.find(f)
         if m is not None:
             return m(self, args, kwargs)
+        if isinstance(f, types.MethodType) and isinstance(f.__self__, NativeModel):
+            return f(*args, **kwargs)
         if isinstance(f, types.MethodType):
             m = self.models.find(f.__func__)
             if m is not None:
@@ -389,6 +392,10 @@ class Interp:
         raise Unsupported("builtin method %r with symbolic arguments" % (name,))
 
     def _construct(self, cls, args, kwargs):
+        if cls is super and len(args) == 2:
+            obj = args[1]
+            start = obj.cls if isinstance(obj, SymObj) else (obj if isinstance(obj, type) else type(obj))
+            return _Super(obj, start, args[0])
         m = self.models.find(cls)
         if m is not None:
             return m(self, args, kwargs)
@@ -495,6 +502,9 @@ class Interp:
         env = Env(locals_, globals_, closure, defcls=defcls, selfobj=args[0] if args else None)
         env.qualname = qualname
         env.loop_ordinal = 0
+        loops = [x for x in ast.walk(node) if isinstance(x, (ast.For, ast.While))]
+        loops.sort(key=lambda x: (x.lineno, x.col_offset))
+        env.loop_ids = {id(x): i + 1 for i, x in enumerate(loops)}
         if isinstance(node, ast.Lambda):
             return self.eval(node.body, env)
         try:
@@ -710,7 +720,7 @@ class Interp:
         raise _Continue()
 
     def x_While(self, s, env):
-        env.loop_ordinal = getattr(env, "loop_ordinal", 0) + 1
+        env.loop_ordinal = getattr(env, "loop_ids", {}).get(id(s), 0)
         spec = self.loop_specs.get((getattr(env, "qualname", None), env.loop_ordinal)) or \
             self.loop_specs.get((getattr(env, "qualname", None), s.lineno))
         if spec is not None:
@@ -733,7 +743,7 @@ class Interp:
                 continue
 
     def x_For(self, s, env):
-        env.loop_ordinal = getattr(env, "loop_ordinal", 0) + 1
+        env.loop_ordinal = getattr(env, "loop_ids", {}).get(id(s), 0)
         spec = self.loop_specs.get((getattr(env, "qualname", None), env.loop_ordinal))
         it = self.eval(s.iter, env)
         if spec is not None:
@@ -856,6 +866,8 @@ class Interp:
 
     def e_UnaryOp(self, e, env):
         v = self.eval(e.operand, env)
+        if isinstance(v, Leaf):
+            v = v.value
         if isinstance(e.op, ast.Not):
             t = truth(v)
             if isinstance(t, bool):
@@ -886,6 +898,10 @@ class Interp:
         return self._call_function(it[0], [obj] + args, {}, defcls=it[1])
 
     def binop(self, op, a, b, inplace=False):
+        if isinstance(a, Leaf):
+            a = a.value
+        if isinstance(b, Leaf):
+            b = b.value
         if isinstance(a, SymObj) or isinstance(b, SymObj):
             nm = {ast.Add: "add", ast.Sub: "sub", ast.Mult: "mul", ast.Div: "truediv", ast.Pow: "pow",
                   ast.FloorDiv: "floordiv", ast.Mod: "mod"}.get(op)
@@ -925,7 +941,7 @@ class Interp:
             return SV(as_int(a) * as_int(b), "int") if both_int else SV(as_real(a) * as_real(b), "real")
         if op is ast.Div:
             zb = as_real(b)
-            if self.path.branch(zb == 0):
+            if not self.total_arith and self.path.branch(zb == 0):
                 raise PyRaise(ZeroDivisionError("division by zero"))
             return SV(as_real(a) / zb, "real")
         if op in (ast.FloorDiv, ast.Mod):
@@ -952,6 +968,10 @@ class Interp:
         raise Unsupported("binary operator %s on symbolic values" % op.__name__)
 
     def pow(self, a, b):
+        if isinstance(a, Leaf):
+            a = a.value
+        if isinstance(b, Leaf):
+            b = b.value
         # concrete non-negative integer exponent: repeated multiplication
         if not isinstance(b, SV) and isinstance(b, int) and not isinstance(b, bool) and 0 <= b <= 8:
             if b == 0:
@@ -995,6 +1015,10 @@ class Interp:
         return SV(z3.And(ta, tb), "bool")
 
     def compare(self, op, a, b):
+        if isinstance(a, Leaf) and op not in (ast.Is, ast.IsNot):
+            a = a.value
+        if isinstance(b, Leaf) and op not in (ast.Is, ast.IsNot):
+            b = b.value
         if op is ast.Is or op is ast.IsNot:
             if isinstance(a, SV) or isinstance(b, SV):
                 if a is None or b is None:
@@ -1195,6 +1219,10 @@ class Interp:
         if isinstance(obj, _Super):
             # super().__setattr__ pattern
             raise Unsupported("setattr through super()")
+        if isinstance(obj, NativeModel):
+            setattr(obj, attr, v)
+            self.path.writes.append((obj, attr, v))
+            return
         if is_symbolic(v):
             raise Unsupported("store of symbolic value into concrete %s.%s" % (type(obj).__name__, attr))
         try:
